@@ -1,4 +1,5 @@
 #![recursion_limit = "256"]
+#![allow(unexpected_cfgs)]
 
 use nom_greedyerror::error_position;
 use std::fmt;
@@ -67,6 +68,12 @@ impl SyntaxTree {
         } else {
             None
         }
+    }
+
+    /// Preprocessed text the tree refers to (verification builds only)
+    #[cfg(sv_parser_verif)]
+    pub fn verif_text(&self) -> &str {
+        self.text.text()
     }
 
     /// Get source code location of the specified `Locate`
